@@ -265,7 +265,10 @@ def run_C04(tier, seed):
     res.append(stages.api_stage("C04", "batch", tier, seed, groups=("fm",), filter_fn=lambda s: dis(s) or cache_only(s) or other_ctx(s)))
     # beyond the chunk limit every member is still verified in ITS context (members made in different contexts, at 256-scale)
     ctxs = lambda s: len({m["label"] for m in s["sc"]["members"]}) >= 2 and s["sc"]["skew"] == [0, 0, 0]
-    big = stages.api_stage("C04", "batch", tier, seed, groups=("rist",), scale="2:256", scale_min=0, limit=25 if q else 400, filter_fn=ctxs)
+    big = stages.api_stage("C04", "batch", tier, seed, groups=("rist",), scale="2:256", scale_min=0, limit=40 if q else 400,
+                           filter_fn=lambda s: ctxs(s) or (s["sc"]["skew"] == [0, 0, 0] and (dis(s) or cache_only(s))),
+                           # (always: two-member batches with a disagreeing member - expanded, a batch of exactly one full chunk)
+                           must_fn=lambda s: len(s["sc"]["members"]) == 2 and dis(s))
     big.name = "api:batch@256"
     res.append(big)
     return res
@@ -451,6 +454,8 @@ def run_C19(tier, seed):
     big.name = "api:batch@256"
     res.append(big)
     res.append(stages.api_stage("C19", "capacity", tier, seed, groups=("rist",), filter_fn=lambda s: any(m["cap"] >= 64 or m["v"]["cap"] >= 64 for m in s["sc"]["members"])))
+    # statements a 0.4.0 verifier accepts although they look unusual: the same commitment at two positions, zero blinding components
+    res.append(stages.api_stage("C19", "complete", tier, seed, filter_fn=lambda s: any(m.get("eqb", 0) or m.get("zb", 0) for m in s["sc"]["members"])))
     return res
 
 
